@@ -10,7 +10,8 @@ EXPL = ("R15.1 forwarders are discovered: every impl of Entry / InflectableEntry
         "every normal path the same trait method is called on the wrapped value exactly once per inner value (Option: only when Some), "
         "every non-receiver parameter reaches the argument in the same position through identity adapters only (or wrapped in a local "
         "wrapper struct), iterator parameters pass through order-preserving adapters only, additions are chained AFTER the incoming "
-        "items, flags are merged rather than replaced, and sample_group is forwarded. Not decided: what the inner value writes.")
+        "items, flags are merged rather than replaced, and sample_group is forwarded. R15.3 a `&mut self` wrapper method never writes or mutably lends one of "
+        "the wrapper's own fields to anything but the forwarding call (its configuration is the same after a failed call). Not decided: what the inner value writes.")
 
 TRAITS = ("Entry", "InflectableEntry", "EntryWriter", "Value", "ValueWriter", "ValueFormatter", "EntryIoStream", "Format", "EntrySink", "AnyEntrySink")
 PTRS = ("&", "alloc::boxed::Box<", "alloc::sync::Arc<", "alloc::borrow::Cow<", "core::option::Option<", "alloc::rc::Rc<")
@@ -183,6 +184,38 @@ def check_forwarder(ctx, F, imp, b, tn, m, tgt, kind, key):
         if any(x[0] == "arg" and x[1] == 1 for x in o) or tgt[0] == "ValueFormatter":
             fwd_self.append(c)
     inner_n = len(imp.get("_inner", [])) or 1
+    # R15.3 a wrapper's own configuration survives the call: with `&mut self`, nothing but the forwarding call itself may mutate a field
+    # of the wrapper (a field lent out with mem::take and handed back after a fallible call is lost on the error path)
+    if b.arg_count >= 1 and b.locals[1]["ty"].startswith("&mut ") and (imp.get("self_head") or {}).get("adt"):
+        plain = Prov(b, adapter_pred=lambda t: (t.get("callee") or {}).get("name") in ("deref_mut", "as_mut", "borrow_mut", "deref", "as_ref", "new_unchecked", "get_mut"))
+        touched = []
+        for i in b.live_blocks():
+            for s_ in b.stmts(i):
+                if s_["k"] == "assign" and s_["lhs"].get("p") and any(e[0] == "deref" for e in s_["lhs"]["p"]) and any(e[0] == "f" for e in s_["lhs"]["p"]):
+                    if any(x[0] == "arg" and x[1] == 1 for x in plain.local(s_["lhs"]["l"])):
+                        touched.append((i, "assigns ." + [e[2] for e in s_["lhs"]["p"] if e[0] == "f"][0]))
+        for c in b.calls():
+            if c in fwd_self or c.diverges:
+                continue
+            nm = c.name
+            if nm in ("deref_mut", "as_mut", "borrow_mut", "new_unchecked", "get_mut") or c.is_trait_method("RngCore") or c.is_trait_method("Rng") or \
+                    c.is_trait_method("EntryIoStream") or c.is_trait_method("Format") or c.is_trait_method("SampledFormat") or c.is_trait_method("Write") or \
+                    c.is_trait_method("EntrySink") or c.is_trait_method("AnyEntrySink") or c.is_trait_method("MakeWriter"):
+                continue
+            # taking the wrapped value itself out in order to forward to it (one-shot writers: `self.0.take().unwrap().metric(..)`) is the
+            # forwarding, not a mutation of the configuration
+            if any(f_.args and any(x[0] in ("call", "via", "callf") and x[1] == c.bb for x in pr.operand(f_.args[0])) for f_ in fwd_self):
+                continue
+            for a in c.args:
+                l = op_local(a)
+                if l is not None and b.local_ty(l).startswith("&mut "):
+                    fo = [x for x in plain.operand(a) if x[0] == "arg" and x[1] == 1 and x[2]]
+                    if fo:
+                        touched.append((c.bb, "%s(&mut self.%s)" % (nm, fo[0][2][0])))
+        ctx.check(not touched, "R15.3", key + "#own-configuration-untouched", loc(b, touched[0][0] if touched else None),
+                  "the wrapper mutates its own state outside the forwarding call (%s): if the wrapped call fails in between, what the wrapper adds or "
+                  "filters changes for every later entry" % ", ".join(t for _, t in touched[:3]),
+                  "no field of the wrapper is written or lent mutably except to the forwarding call")
     is_option = st.startswith("core::option::Option<")
     if m == "sample_group":
         o = pr.local(0)
